@@ -431,6 +431,7 @@ def try_concretize_str(s, retry=False):
 
 
 WITNESSED = set()
+PATH_HOOKS = []  # run before every explored path (the loader registers the reset of library-level state)
 
 
 def witness(name, cond=True):
@@ -517,6 +518,8 @@ def explore(fn, max_paths=100000, deadline=None, on_path=None):
             raise Inconclusive("time budget exhausted with %d prefixes pending" % len(pending))
         pre, pm, sg = pending.pop()
         c = CTX = Ctx(pre, pm, sg)
+        for hook in PATH_HOOKS:
+            hook()
         try:
             res = fn()
         except OutOfBound:
